@@ -237,6 +237,17 @@ def wrap_tags(s, stag='<', etag='>'):
     return stag + s + etag
 
 
+def _seg_regex(rng, base):
+    """a regular expression for `base`; anchors (outside the modelled subset, judged by the direct oracle only) are
+    kept in a quarter of the cases"""
+    r = regex_for(rng, base)
+    if rng.random() < 0.75:
+        r = r.lstrip('^')
+        while r.endswith('$') and not r.endswith('\\$'):
+            r = r[:-1]
+    return r
+
+
 def gen_str_elem(rng, what, stag='<', etag='>'):
     """string element aimed at the (string) value `what` for the three string checkers"""
     import re
@@ -248,11 +259,11 @@ def gen_str_elem(rng, what, stag='<', etag='>'):
         return ('S', wrap_tags(base, stag, etag))
     if r < 0.5:
         # tagged regex over the whole value
-        return ('S', wrap_tags(regex_for(rng, base).replace(stag, '').replace(etag, ''), stag, etag))
+        return ('S', wrap_tags(_seg_regex(rng, base).replace(stag, '').replace(etag, ''), stag, etag))
     if r < 0.65 and base:
         i = rng.randint(0, len(base))
         j = rng.randint(i, len(base))
-        mid = regex_for(rng, base[i:j]).replace(stag, '').replace(etag, '')
+        mid = _seg_regex(rng, base[i:j]).replace(stag, '').replace(etag, '')
         return ('S', base[:i] + wrap_tags(mid, stag, etag) + base[j:])
     if r < 0.72 and len(base) >= 2:
         i = rng.randint(0, len(base) - 1)
